@@ -31,6 +31,12 @@ CHECKS = {
         "the property's concrete clauses (re-parse accepted, F2 == F, unparse(F2) == unparse(F)) are checked per program.",
    note="Trusted: FOL encoder, z3. Outside: literal contents are enumerated (Z3's C printer / ANTLR cannot be made symbolic); texts outside the family. Ten known findings (KNOWN_FINDINGS.txt).",
    design="§3 C07"),
+ "C15": dict(level="other", technique="SMT (z3 5.1.0 + cvc5): regular-language emptiness queries over the real regex objects and the intervals the real function returns; CrossHair on merge_intervals",
+   text=BOUNDED + "For every regex of the family derived from the docstring BNF of numeric_intervals_from_regex (~190 quick / thousands thorough) the solver decides, "
+        "for ALL strings, soundness L(R) subseteq NumLang(I) and completeness (every integer of I has a rendering in L(R)); compress_concatenation_elements is "
+        "checked by language equivalence on all element lists up to a length bound; merge_intervals by CrossHair with symbolic endpoints.",
+   note="Trusted: NumLang/Canon regex builders (self-tested against Python int() on every run), z3 5.1.0 (cvc5 1.0.3 cross-checks where it answers within 1.2 s). Precondition: L(R) contains numerals only. Known finding: symmetric full range.",
+   design="§3 C15"),
 }
 NOT_APPLICABLE = {
  "C21": "needs end-to-end solve() on the shipped formalizations plus external validators (docutils, XML parser): the solver loop is a heap algorithm around Z3 calls that no engine here can encode, and the validators are not solver objects",
